@@ -11,6 +11,5 @@ func runBounded(v *Verifier, root, repo, prop, name, tier string, seed int) Boun
 	return BoundedResult{OK: true, Info: map[string]interface{}{"name": name, "note": "not implemented"}}
 }
 
-func (v *Verifier) regexObligations(prop string) []*Obligation { return nil }
 func (v *Verifier) lemmaObligations(prop string) []*Obligation { return nil }
 
